@@ -208,6 +208,13 @@ structure VFeatEdge where
 def incidentPairs (es : List REdge) (v : Nat) : List (Nat × Rat) :=
   es.filterMap (fun x => if x.a = v then some (x.b, x.rot) else if x.b = v then some (x.a, x.rot) else none)
 
+/-! ## `_initialize_attributes` (round 7) -/
+/-- what `_initialize_attributes` decides: the feature set, the connection, and whether the mesh's `cotan` attribute is refreshed -/
+structure AttrSt (F C : Type) where
+  feat : Option F
+  conn : Option C
+  cotOnMesh : Bool
+
 /-! ## connection / operator assembly (round 6) -/
 /-- `utils.offset([A,B,C], k)` -/
 def rotl3 (A B C : Nat) (k : Nat) : Nat × Nat × Nat := if k = 0 then (A, B, C) else if k = 1 then (B, C, A) else (C, A, B)
